@@ -4,6 +4,7 @@ CONSTANTS WholeRules <- Whole
           Cap = 2
           KeyHasTokens = FALSE
           MaxOps = 4
+          Peeking <- NoRules
 INIT LGInit
 NEXT LGNext
 INVARIANTS CacheUnobservable Decomposes
